@@ -307,3 +307,28 @@ Proof.
     intros ks Hnd Hi Hj. rewrite H2; [exact Hsign | exact Hnd |].
     intros t [<-|[<-|[]]]; assumption.
 Qed.
+
+(* ---------- MPS._term_to_ops_list: the flag has_extra_JW and the appended strings (all terms, all three JW_from_right) ---------- *)
+Lemma tol_fold_flag : forall imin term st,
+  snd (fold_left (tol_step true imin) term st) = xorb (snd st) (total_parity term).
+Proof.
+  intros imin term. induction term as [|t r IH]; intros st.
+  - cbn. rewrite xorb_false_r. reflexivity.
+  - cbn [fold_left]. rewrite IH.
+    unfold total_parity. cbn [fold_right]. fold (total_parity r).
+    unfold tol_step. cbn [andb]. destruct (it_f t); cbn [snd]; destruct (snd st), (total_parity r); reflexivity.
+Qed.
+
+Lemma term_to_ops_list_flag : forall term jfr,
+  let from_right := match jfr with Some b => b | None => total_parity term end in
+  snd (term_to_ops_list term true jfr) =
+    match jfr with Some b => xorb (total_parity term) b | None => total_parity term end /\
+  fst (fst (term_to_ops_list term true jfr)) =
+    (if from_right then map (fun w => w ++ [JWl]) (fst (fst (term_to_ops_list term true (Some false))))
+     else fst (fst (term_to_ops_list term true (Some false)))) /\
+  snd (fst (term_to_ops_list term true jfr)) = min_site term.
+Proof.
+  intros term jfr. unfold term_to_ops_list. cbv zeta. cbn [fst snd].
+  rewrite !tol_fold_flag. cbn [snd]. rewrite xorb_false_l.
+  destruct jfr as [[|]|]; cbn [fst snd]; repeat split; try reflexivity.
+Qed.
